@@ -149,6 +149,7 @@ class SimPath(pathlib.PosixPath):
 
 
 SIM_PACKAGES = {"schwifty", "simreg"}
+ALIASES: list[str] = []  # real package directories whose *_registry sub-directories are served from the simulation
 _real_files = None
 
 
@@ -214,7 +215,19 @@ def install(fs: SimFS, patch_resources: bool = True) -> None:
             return None
         if isinstance(s, bytes):
             s = s.decode("utf-8", "replace")
-        return s if isinstance(s, str) and (s == ROOT or s.startswith(ROOT + "/")) else None
+        if not isinstance(s, str):
+            return None
+        if s == ROOT or s.startswith(ROOT + "/"):
+            return s
+        # a loader that locates its data through __file__ instead of importlib.resources: the registry
+        # directories next to the package source are aliases of the simulated ones
+        for alias in ALIASES:
+            if s.startswith(alias):
+                rest = s[len(alias):].lstrip("/")
+                head = rest.split("/", 1)[0]
+                if head.endswith("_registry"):
+                    return f"{ROOT}/{rest}".rstrip("/")
+        return None
 
     def sim_open(file, mode="r", buffering=-1, encoding=None, errors=None, newline=None, closefd=True, opener=None):
         s = _under(file)
